@@ -131,6 +131,15 @@ func (c *ctx) runOp(line string) string {
 		return out
 	case "conc":
 		return c.concurrent(ws, line)
+	case "dec":
+		if len(ws) != 3 {
+			return "bad-op"
+		}
+		n, err := strconv.Atoi(ws[1])
+		if err != nil || n < 1 {
+			return "bad-op"
+		}
+		return jx.ImplDecode(hx.UnHex(ws[2]), n)
 	case "maybe":
 		return c.maybeJSON(hx.UnHex(ws[1]), line)
 	case "doc":
@@ -308,6 +317,24 @@ func (g *gen) maybeInputs(n int) {
 	}
 }
 
+// expectFromText gives the JSON the two generated boundary forms without a fixed
+// expectation denote: {"<pad><ch>": 1} and {k: [1, 1, ..., "<ch><ch>"]}.
+func expectFromText(text, ch, out string) string {
+	if strings.HasPrefix(text, `{"`) {
+		i := strings.Index(text, `": 1}`)
+		if i < 0 {
+			return ""
+		}
+		k, _ := json.Marshal(text[2:i])
+		return "{" + string(k) + ":1}"
+	}
+	if strings.HasPrefix(text, "{k: [") {
+		n := strings.Count(text, "1, ")
+		return `{"k":[` + strings.Repeat("1,", n) + `"` + ch + ch + `"]}`
+	}
+	return ""
+}
+
 type gen struct {
 	g    *jx.Gen
 	r    *hx.Rand
@@ -383,6 +410,10 @@ func (g *gen) doc(v interface{}, plain bool) {
 	if plain {
 		g.add("plain " + hx.Hex([]byte(full)))
 	}
+	if g.r.Intn(6) == 0 { // the same text through an io.Reader with short reads
+		g.add(fmt.Sprintf("dec %d %s", hx.Pick(g.r, []int{1, 2, 3, 5, 7, 64}), hx.Hex([]byte(full))))
+		g.rep.Count("reader:short-reads")
+	}
 	// trailing content after the complete value
 	if g.r.Intn(3) == 0 {
 		t := hx.Pick(g.r, tails)
@@ -456,6 +487,57 @@ func main() {
 			g.add("tojson " + hx.Hex([]byte(jc.text)))
 			g.add("unm " + hx.Hex([]byte(jc.text)))
 			g.add(fmt.Sprintf("doc %s %s corner", hx.Hex([]byte(jc.text)), hx.Hex([]byte(jc.want))))
+		}
+		// keywords are not identifiers: as bare keys they must be rejected, never converted
+		for _, t := range []struct{ text, want string }{
+			{"{true: 1}", `{"true":1}`}, {"{false: 1}", `{"false":1}`}, {"{null: 0}", `{"null":0}`},
+			{"{a: 1, null: 2}", `{"a":1,"null":2}`}, {"{x: {true: []}}", `{"x":{"true":[]}}`}, {"[{null: null}]", `[{"null":null}]`},
+			{"{truex: 1, nul: 2, nulls: 3, True: 4}", `{"truex":1,"nul":2,"nulls":3,"True":4}`},
+			{"{\"true\": 1, `null`: 2}", `{"true":1,"null":2}`}, {"{true}", `{}`}, {"{true: 1,}", `{"true":1}`},
+		} {
+			g.add("tojson " + hx.Hex([]byte(t.text)))
+			g.add("unm " + hx.Hex([]byte(t.text)))
+			g.add(fmt.Sprintf("doc %s %s keyword-key", hx.Hex([]byte(t.text)), hx.Hex([]byte(t.want))))
+			g.add(fmt.Sprintf("dec 3 %s", hx.Hex([]byte(t.text))))
+			rep.Count("keyword-key-corner")
+		}
+		// multi-byte characters at every alignment around the reader's buffer sizes, in strings,
+		// keys, raw strings and comments, through ToJSON, Unmarshal and a Decoder with short reads
+		bases := []int{4096, 8192}
+		for _, o := range jx.BoundaryOffsets(append(bases, 65536)) {
+			for _, ch := range jx.BoundaryRunes {
+				type bd struct{ text, want string }
+				js, _ := json.Marshal(jx.Pad(o-1) + ch + "z")
+				docs := []bd{
+					{`"` + jx.Pad(o-1) + ch + `z"`, string(js)},
+					{`{"` + jx.Pad(o-2) + ch + `": 1}`, ""},
+				}
+				if o < 10000 {
+					docs = append(docs,
+						bd{"`" + jx.Pad(o-1) + ch + "z`", string(js)},
+						bd{"/*" + jx.Pad(o-2) + ch + "*/ [1, \"" + ch + "\"]", `[1,"` + ch + `"]`},
+						bd{"[1, // " + jx.Pad(o-7) + ch + "\n \"" + ch + "\"]", `[1,"` + ch + `"]`},
+						bd{"{k: [" + strings.Repeat("1, ", (o-10)/3) + "\"" + ch + ch + "\"]}", ""})
+				}
+				for _, d := range docs {
+					g.add("tojson " + hx.Hex([]byte(d.text)))
+					g.add("unm " + hx.Hex([]byte(d.text)))
+					want := d.want
+					if want == "" {
+						if out, errs := jsonx.ToJSON([]byte(d.text)); errs == nil {
+							// the expected value is what the text says, rebuilt without the converter
+							want = expectFromText(d.text, ch, string(out))
+						}
+					}
+					if want != "" {
+						g.add(fmt.Sprintf("doc %s %s buffer-boundary", hx.Hex([]byte(d.text)), hx.Hex([]byte(want))))
+					}
+					if o < 10000 {
+						g.add(fmt.Sprintf("dec %d %s", hx.Pick(g.r, []int{1, 3, 4096, 4095}), hx.Hex([]byte(d.text))))
+					}
+					rep.Count("buffer-boundary")
+				}
+			}
 		}
 		// literal forms of big.Int.SetString that the lexer splits into two tokens
 		for _, t := range []string{"0b1", "0B1", "0o7", "0O7", "0X1f", "1_000", "0x_1", "0_7", "0x1_f", "[0b1]", "{a: 0o7}", "-0b1", "1_", "0xg"} {
@@ -544,6 +626,9 @@ func main() {
 	for i, op := range ops {
 		if strings.HasPrefix(op, "tojson ") || strings.HasPrefix(op, "unm ") {
 			mops = append(mops, op)
+			midx = append(midx, i)
+		} else if ws := strings.Fields(op); len(ws) == 3 && ws[0] == "dec" {
+			mops = append(mops, "unm "+ws[2]) // Decoder.Decode is Unmarshal without the More() check
 			midx = append(midx, i)
 		}
 	}
